@@ -3,8 +3,8 @@
 import glob, json, os, shutil, sys
 ROOT = os.path.dirname(os.path.dirname(os.path.abspath(__file__)))
 res = {}
-for f in sorted(glob.glob('/tmp/mut/results*.jsonl')):
-    if 'ref' in f:
+for f in sorted(glob.glob('/tmp/mut/results*.jsonl')) + sorted(glob.glob('/tmp/mut2/results*.jsonl')):
+    if 'ref' in f or 'cross' in f:
         continue
     for l in open(f):
         try:
@@ -22,7 +22,7 @@ for key, ent in sorted(res.items()):
     d = key
     meta = json.load(open(os.path.join(d, 'meta.json')))
     pid = meta['property']
-    x = d.rstrip('/').split('_')[-1]
+    x = d.rstrip('/').split('_')[-1] + ('2' if '/mut2/' in d else '')
     c = ent['confirm']
     confirmed = c.get('patch_applies') and c.get('suite_passes_with_change') and c.get('demo_fails_with_change') and c.get('demo_passes_without_change')
     if not confirmed:
